@@ -355,10 +355,24 @@ def run (op impl : String) : Ans :=
   match op.splitOn " " with
   | kind :: rest =>
     let body := " ".intercalate rest
+    -- vip / route / cc / gslb / ct / name / bal are loaded several times by the harness: differing outcomes come as `a|b`
+    if ["vip", "route", "cc", "gslb", "ct", "name", "bal"].contains kind && impl.contains '|' then
+      { model := "one outcome", verdict := "FAIL:order-dependent-" ++ kind, tags := [kind, "order-dependent"] }
+    else
     if kind == "all" then runAll body impl
     else if kind == "bal" then runBal body impl
     else if kind == "name" then runName body impl
     else if kind == "ticket" then runTicket body impl
+    else if kind == "conf" then
+      -- a sample configuration shipped under <repo>/conf (file list read from the tree): it must load; a file for which
+      -- the harness has no loader is reported too, so that new sample files do not go unnoticed
+      let cls := (body.replace "/" "-").replace "@" "set-"
+      { model := impl,
+        verdict := if impl == "ok" then "ok"
+                   else if impl == "no-loader" then "FAIL:conf-no-loader-" ++ cls
+                   else if impl.startsWith "PANIC" then "FAIL:conf-panic-" ++ cls
+                   else "FAIL:conf-rejected-" ++ cls,
+        tags := ["conf", "documented"] }
     else if kind == "mod" then runMod rest impl false
     else if kind == "moddoc" then runMod rest impl true
     else runSingle kind body impl
